@@ -631,7 +631,27 @@ def r10_10(chk):
     chk.floor("R10.10", 8, "parameters of CharAlphabet, KmerAlphabet and CodonAlphabet")
 
 
+def r10_11(chk):
+    chk.rule("R10.11", "sibling agreement of the Table property setters: the serialised form (and every derived table) is built from `_persistent_attrs`, the mapping of constructor arguments taken in __init__; each property setter whose name is one of those arguments therefore stores the new value into that mapping as well -- title, legend, space and index_name do; a setter that only changes the private attribute is lost by to_json / pickle and by every operation that builds a new table")
+    m = chk.repo.module("util/table.py")
+    ci = m.cls("Table")
+    init = ci.methods["__init__"]
+    keys = {a.arg for a in init.args.args[1:] + init.args.kwonlyargs} - {"header", "data"}
+    n = 0
+    for st in ci.node.body:
+        if not isinstance(st, ast.FunctionDef):
+            continue
+        setter = [d for d in st.decorator_list if isinstance(d, ast.Attribute) and d.attr == "setter"]
+        if not setter or st.name not in keys:
+            continue
+        n += 1
+        stores = [x for x in ast.walk(st) if isinstance(x, ast.Subscript) and isinstance(x.ctx, ast.Store) and norm(x.value) == "self._persistent_attrs" and isinstance(x.slice, ast.Constant) and x.slice.value == st.name]
+        chk.decide(bool(stores), "R10.11", key(m, f"Table.{st.name}.setter", "updates the persistent attributes"), m.loc(st), f"stores _persistent_attrs['{st.name}']", f"the `{st.name}` setter changes only the private attribute: t.{st.name} = <new>; deserialise_object(t.to_json()).{st.name} (and t.sorted().{st.name}, pickle) still has the constructor's value")
+    chk.floor("R10.11", 4, "title, legend, space, index_name (+ format)")
+
+
 def run(chk):
+    r10_11(chk)
     r10_10(chk)
     r10_9(chk)
     r10_8(chk)
